@@ -1116,6 +1116,7 @@ DLLIMPORT cfg_value_t *cfg_setopt(cfg_t *cfg, cfg_opt_t *opt, const char *value)
 DLLIMPORT int cfg_opt_setmulti(cfg_t *cfg, cfg_opt_t *opt, unsigned int nvalues, char **values)
 {
 	cfg_opt_t old;
+	char *comment;
 	unsigned int i;
 
 	if (!opt || !nvalues) {
@@ -1127,6 +1128,11 @@ DLLIMPORT int cfg_opt_setmulti(cfg_t *cfg, cfg_opt_t *opt, unsigned int nvalues,
 	opt->nvalues = 0;
 	opt->values = NULL;
 
+	/* The annotation stays with the option, whatever happens to the values */
+	comment = opt->comment;
+	opt->comment = NULL;
+	old.comment = NULL;
+
 	for (i = 0; i < nvalues; i++) {
 		if (cfg_setopt(cfg, opt, values[i]))
 			continue;
@@ -1137,11 +1143,13 @@ DLLIMPORT int cfg_opt_setmulti(cfg_t *cfg, cfg_opt_t *opt, unsigned int nvalues,
 		opt->values = old.values;
 		opt->flags &= ~(CFGF_RESET | CFGF_MODIFIED);
 		opt->flags |= old.flags & (CFGF_RESET | CFGF_MODIFIED);
+		opt->comment = comment;
 
 		return CFG_FAIL;
 	}
 
 	cfg_free_value(&old);
+	opt->comment = comment;
 	opt->flags |= CFGF_MODIFIED;
 
 	return CFG_SUCCESS;
